@@ -31,7 +31,7 @@ def ArgsOK (c : Cfg) (w : World) : Op → Prop
     (match nd with
      | .ppc a _ n => n ≤ a.length ∧ (fam = .rfind → 0 ∈ a)
      | .pp a _ => 0 ∈ a
-     | .c _ p => fam = .rfind → p.getD (npos c) < c.W
+     | .c _ p => (fam = .rfind → p.getD (npos c) < c.W) ∧ (fam = .find → p.getD 0 < c.W)
      | _ => True)
   | _ => True
 
@@ -104,7 +104,7 @@ theorem searchStep_safe (hc : CfgOK c) (hw : WFW c cu w) (fam : Fam) (nd : Needl
   case rfind.s d p => exact rfindN_safe hs _ (hdl d)
   case rfind.ppc a p n => exact rfindPN_safe hs (ha.2 rfl) _ _
   case rfind.pp a p => exact rfindP_safe hs ha _
-  case rfind.c ch p => exact rfindCh_safe hc hs _ (by cases p <;> simpa using ha rfl)
+  case rfind.c ch p => exact rfindCh_safe hc hs _ (by cases p <;> simpa using ha.1 rfl)
   case ffo.f p => exact findFirstOfImpl_safe hs htz _ _ _
   case ffo.s d p => exact findFirstOfImpl_safe hs (hdz d) _ _ _
   case ffo.ppc a p n => exact findFirstOfPN_safe hs _ ha.1 _
@@ -276,5 +276,27 @@ theorem step_safe (hc : CfgOK c) (hcu : CfgOK cu) (hw : WFW c cu w) (op : Op) (h
   case search fam nd => exact Or.inl (obs_ok hw (searchStep_safe hc hw fam nd (by simpa only [ArgsOK] using ha)))
   case eq f => obtain ⟨co, ho⟩ := sel_wf hw f; exact Or.inl (obs_ok hw (eqOp_safe hs ho))
   case ne f => obtain ⟨co, ho⟩ := sel_wf hw f; exact Or.inl (obs_ok hw (neOp_safe hs ho))
+
+/-- the caller-side contract holds at every step of a history -/
+def HistOK (c cu : Cfg) : World → List Op → Prop
+  | _, [] => True
+  | w, op :: ops =>
+    ArgsOK c w op ∧
+      (∀ p, step c cu w op = .ok p → HistOK c cu p.1 ops) ∧ (∀ e, step c cu w op = .throw e → HistOK c cu w ops)
+
+/-- induction over the history: it runs to its end and ends well-formed -/
+theorem run_wf (hc : CfgOK c) (hcu : CfgOK cu) (ops : List Op) :
+    ∀ w, WFW c cu w → HistOK c cu w ops → ∃ w', run c cu w ops = .ok w' ∧ WFW c cu w' := by
+  induction ops with
+  | nil => intro w hw _; exact ⟨w, rfl, hw⟩
+  | cons op ops ih =>
+    intro w hw hh
+    obtain ⟨ha, hok, hthrow⟩ := hh
+    unfold run
+    rcases step_safe hc hcu hw op ha with ⟨w', o, h1, h2⟩ | ⟨e, h1, _⟩
+    · rw [h1]; exact ih w' h2 (hok _ h1)
+    · rw [h1]; exact ih w hw (hthrow _ h1)
+
+theorem init_wf (c cu : Cfg) : WFW c cu (World.init c cu) := ⟨fresh_wf c, fresh_wf c, fresh_wf cu⟩
 
 end CelmaVerif.FixedString
